@@ -1,16 +1,20 @@
 (* Props/C09.v — Printing a formula and parsing it back preserves its meaning.
    Statements only; every proof is [exact <lemma>] into the Syntax library.
 
-   The full-strength statement [C09_statement] is FALSE for the code as it is (finding F02): the
-   printer omits parentheses for the parent / position / child-kind combinations listed in
-   [Shape.bad_pair]; each entry is refuted below by a witness ([C09_refuted_*]), and the statement
-   is proved for the complement ([C09_partial]).  Scope: every node kind the parser can return
-   (operators of every level, unary minus and percent, ranges, references, arrays, built-in and
-   user functions with empty arguments, LAMBDA definitions and calls, @ and #, names, errors,
-   strings, numbers); all three text forms:
-   the display form in every locale and language, the stored R1C1 form, and the xlsx form (the
-   printer with export_to_excel = true, where "@x" and "x#" are function calls and therefore never
-   bad pairs). *)
+   State of the code (commit 1fc9128, the repair F02): the printer now writes every parenthesis the
+   grammar needs, except in three associative cases it leaves bare on purpose
+   (test_stringify::correct_parenthesis): a sum on the right of "+" (1+(2+3), 1+(2-3)) and a
+   concatenation on the right of "&" (1&(2&3)).  There the text parses back to the left-nested
+   tree: the STRUCTURE changes, the VALUE does not.  So the full-strength structural statement
+   [C09_statement] is still false ([C09_refuted_*], three witnesses, [Shape.bad_pair] has exactly
+   these three entries), and it is proved for the complement ([C09_partial]).  Scope: every node
+   kind the parser can return (operators of every level, unary minus and percent, ranges,
+   references, arrays, built-in and user functions with empty arguments, LAMBDA definitions and
+   calls, @ and #, names, errors, strings, numbers); all three text forms: the display form in
+   every locale and language, the stored R1C1 form, and the xlsx form (the printer with
+   export_to_excel = true).  [C09_repaired] is hypothetical: with the three cases wrapped too
+   ([Printer.full_policy]) nothing is excluded.  [C09_former_witnesses_roundtrip]: the witnesses of
+   the 60 pairs the commit repaired come back. *)
 From IronCalc Require Import Base.Prelude Codec.RefA1 Syntax.Token Syntax.Ast Syntax.Printer Syntax.Parser
   Syntax.Shape Syntax.ShapeProofs Syntax.GlueProofs Syntax.RoundTrip Syntax.FixedProofs Syntax.FuelProofs Syntax.Refuted.
 
@@ -22,7 +26,7 @@ Definition C09_statement : Prop :=
 
 (* ... it does not hold: *)
 Theorem C09_statement_refuted : ~ C09_statement.
-Proof. exact (fun H => proj2 (proj2 (proj2 (proj2 C09_refuted_Add_Concat_left))) (H m_rc nm0 env0 _ (proj1 (proj2 C09_refuted_Add_Concat_left)))). Qed.
+Proof. exact (fun H => proj2 (proj2 (proj2 (proj2 C09_refuted_Add_Add_right))) (H m_rc nm0 env0 _ (proj1 (proj2 C09_refuted_Add_Add_right)))). Qed.
 Print Assumptions C09_statement_refuted.
 
 (* the table of missing parentheses is the predicate "printed bare although the position only
@@ -49,7 +53,7 @@ Proof. exact roundtrip_glued. Qed.
 Print Assumptions C09_partial_lexed.
 
 (* ... and with the parser's own fuel (2 * tokens + 3): exactly the conclusion of [C09_statement],
-   under the premises that name the findings: no bad pair (F02), lower-case user function names
+   under the premises that name the findings: none of the three associative pairs (F02 remainder), lower-case user function names
    (F62), no lexer glue around ':' (F04 family) *)
 Theorem C09_partial_statement :
   forall m nm env e,
@@ -75,9 +79,9 @@ Theorem C09_policy :
 Proof. exact roundtrip_policy. Qed.
 Print Assumptions C09_policy.
 
-(* ... in particular for the proposed repair F02 ([Printer.fixed_policy], notes/C09.md): with the
-   added match arms no bad pair is left, and the statement holds for every tree the parser can
-   return (in all three text forms; user function names in lower case, F62) *)
+(* ... in particular, hypothetically, for [Printer.full_policy] (the three associative cases wrapped
+   as well): no bad pair is left, and the statement holds for every tree the parser can return (in
+   all three text forms; user function names in lower case, F62) *)
 Theorem C09_repaired :
   forall m nm env e, image m nm env e = true -> lower_stable nm e = true ->
   forall f, (size e + 2 <= f)%nat -> parse_fuel m nm env f (print_fixed m nm e) = Some (e, []).
@@ -97,35 +101,11 @@ Example C09_partial_nonvacuous :
   glue_free true (print m_rc nm0 e) = true /\ parse m_rc nm0 env0 (print m_rc nm0 e) = Some (e, []).
 Proof. vm_compute. repeat split. Qed.
 
-(* ---- one witness per bad pair: the stored text of a tree the parser returns parses to another tree *)
-
-Theorem C09_refuted_Cmp_Cmp_right : bad_pair false KCmp PRight KCmp = true /\ refutes w_Cmp_Cmp_right.
-Proof. exact Refuted.C09_refuted_Cmp_Cmp_right. Qed.
-Print Assumptions C09_refuted_Cmp_Cmp_right.
-
-Theorem C09_refuted_Concat_Cmp_left : bad_pair false KConcat PLeft KCmp = true /\ refutes w_Concat_Cmp_left.
-Proof. exact Refuted.C09_refuted_Concat_Cmp_left. Qed.
-Print Assumptions C09_refuted_Concat_Cmp_left.
-
-Theorem C09_refuted_Concat_Cmp_right : bad_pair false KConcat PRight KCmp = true /\ refutes w_Concat_Cmp_right.
-Proof. exact Refuted.C09_refuted_Concat_Cmp_right. Qed.
-Print Assumptions C09_refuted_Concat_Cmp_right.
-
+(* ---- one witness per bad pair: the stored text of a tree the parser returns parses to another tree
+   (the left-nested one: same value, different structure) *)
 Theorem C09_refuted_Concat_Concat_right : bad_pair false KConcat PRight KConcat = true /\ refutes w_Concat_Concat_right.
 Proof. exact Refuted.C09_refuted_Concat_Concat_right. Qed.
 Print Assumptions C09_refuted_Concat_Concat_right.
-
-Theorem C09_refuted_Add_Concat_left : bad_pair false (KSum SAdd) PLeft KConcat = true /\ refutes w_Add_Concat_left.
-Proof. exact Refuted.C09_refuted_Add_Concat_left. Qed.
-Print Assumptions C09_refuted_Add_Concat_left.
-
-Theorem C09_refuted_Sub_Concat_left : bad_pair false (KSum SMinus) PLeft KConcat = true /\ refutes w_Sub_Concat_left.
-Proof. exact Refuted.C09_refuted_Sub_Concat_left. Qed.
-Print Assumptions C09_refuted_Sub_Concat_left.
-
-Theorem C09_refuted_Add_Concat_right : bad_pair false (KSum SAdd) PRight KConcat = true /\ refutes w_Add_Concat_right.
-Proof. exact Refuted.C09_refuted_Add_Concat_right. Qed.
-Print Assumptions C09_refuted_Add_Concat_right.
 
 Theorem C09_refuted_Add_Add_right : bad_pair false (KSum SAdd) PRight (KSum SAdd) = true /\ refutes w_Add_Add_right.
 Proof. exact Refuted.C09_refuted_Add_Add_right. Qed.
@@ -135,218 +115,9 @@ Theorem C09_refuted_Add_Sub_right : bad_pair false (KSum SAdd) PRight (KSum SMin
 Proof. exact Refuted.C09_refuted_Add_Sub_right. Qed.
 Print Assumptions C09_refuted_Add_Sub_right.
 
-Theorem C09_refuted_Sub_Concat_right : bad_pair false (KSum SMinus) PRight KConcat = true /\ refutes w_Sub_Concat_right.
-Proof. exact Refuted.C09_refuted_Sub_Concat_right. Qed.
-Print Assumptions C09_refuted_Sub_Concat_right.
 
-Theorem C09_refuted_Prod_Concat_left : bad_pair false KProd PLeft KConcat = true /\ refutes w_Prod_Concat_left.
-Proof. exact Refuted.C09_refuted_Prod_Concat_left. Qed.
-Print Assumptions C09_refuted_Prod_Concat_left.
-
-Theorem C09_refuted_Prod_Concat_right : bad_pair false KProd PRight KConcat = true /\ refutes w_Prod_Concat_right.
-Proof. exact Refuted.C09_refuted_Prod_Concat_right. Qed.
-Print Assumptions C09_refuted_Prod_Concat_right.
-
-Theorem C09_refuted_Neg_Cmp_only : bad_pair false KNeg POnly KCmp = true /\ refutes w_Neg_Cmp_only.
-Proof. exact Refuted.C09_refuted_Neg_Cmp_only. Qed.
-Print Assumptions C09_refuted_Neg_Cmp_only.
-
-Theorem C09_refuted_Neg_Concat_only : bad_pair false KNeg POnly KConcat = true /\ refutes w_Neg_Concat_only.
-Proof. exact Refuted.C09_refuted_Neg_Concat_only. Qed.
-Print Assumptions C09_refuted_Neg_Concat_only.
-
-Theorem C09_refuted_Neg_Prod_only : bad_pair false KNeg POnly KProd = true /\ refutes w_Neg_Prod_only.
-Proof. exact Refuted.C09_refuted_Neg_Prod_only. Qed.
-Print Assumptions C09_refuted_Neg_Prod_only.
-
-Theorem C09_refuted_Pct_Cmp_only : bad_pair false KPct POnly KCmp = true /\ refutes w_Pct_Cmp_only.
-Proof. exact Refuted.C09_refuted_Pct_Cmp_only. Qed.
-Print Assumptions C09_refuted_Pct_Cmp_only.
-
-Theorem C09_refuted_Pct_Concat_only : bad_pair false KPct POnly KConcat = true /\ refutes w_Pct_Concat_only.
-Proof. exact Refuted.C09_refuted_Pct_Concat_only. Qed.
-Print Assumptions C09_refuted_Pct_Concat_only.
-
-Theorem C09_refuted_Pct_Add_only : bad_pair false KPct POnly (KSum SAdd) = true /\ refutes w_Pct_Add_only.
-Proof. exact Refuted.C09_refuted_Pct_Add_only. Qed.
-Print Assumptions C09_refuted_Pct_Add_only.
-
-Theorem C09_refuted_Pct_Sub_only : bad_pair false KPct POnly (KSum SMinus) = true /\ refutes w_Pct_Sub_only.
-Proof. exact Refuted.C09_refuted_Pct_Sub_only. Qed.
-Print Assumptions C09_refuted_Pct_Sub_only.
-
-Theorem C09_refuted_Pct_Prod_only : bad_pair false KPct POnly KProd = true /\ refutes w_Pct_Prod_only.
-Proof. exact Refuted.C09_refuted_Pct_Prod_only. Qed.
-Print Assumptions C09_refuted_Pct_Prod_only.
-
-Theorem C09_refuted_Pct_Pow_only : bad_pair false KPct POnly KPow = true /\ refutes w_Pct_Pow_only.
-Proof. exact Refuted.C09_refuted_Pct_Pow_only. Qed.
-Print Assumptions C09_refuted_Pct_Pow_only.
-
-Theorem C09_refuted_Range_Cmp_left : bad_pair false KRangeOp PLeft KCmp = true /\ refutes w_Range_Cmp_left.
-Proof. exact Refuted.C09_refuted_Range_Cmp_left. Qed.
-Print Assumptions C09_refuted_Range_Cmp_left.
-
-Theorem C09_refuted_Range_Concat_left : bad_pair false KRangeOp PLeft KConcat = true /\ refutes w_Range_Concat_left.
-Proof. exact Refuted.C09_refuted_Range_Concat_left. Qed.
-Print Assumptions C09_refuted_Range_Concat_left.
-
-Theorem C09_refuted_Range_Add_left : bad_pair false KRangeOp PLeft (KSum SAdd) = true /\ refutes w_Range_Add_left.
-Proof. exact Refuted.C09_refuted_Range_Add_left. Qed.
-Print Assumptions C09_refuted_Range_Add_left.
-
-Theorem C09_refuted_Range_Sub_left : bad_pair false KRangeOp PLeft (KSum SMinus) = true /\ refutes w_Range_Sub_left.
-Proof. exact Refuted.C09_refuted_Range_Sub_left. Qed.
-Print Assumptions C09_refuted_Range_Sub_left.
-
-Theorem C09_refuted_Range_Prod_left : bad_pair false KRangeOp PLeft KProd = true /\ refutes w_Range_Prod_left.
-Proof. exact Refuted.C09_refuted_Range_Prod_left. Qed.
-Print Assumptions C09_refuted_Range_Prod_left.
-
-Theorem C09_refuted_Range_Pow_left : bad_pair false KRangeOp PLeft KPow = true /\ refutes w_Range_Pow_left.
-Proof. exact Refuted.C09_refuted_Range_Pow_left. Qed.
-Print Assumptions C09_refuted_Range_Pow_left.
-
-Theorem C09_refuted_Range_Neg_left : bad_pair false KRangeOp PLeft KNeg = true /\ refutes w_Range_Neg_left.
-Proof. exact Refuted.C09_refuted_Range_Neg_left. Qed.
-Print Assumptions C09_refuted_Range_Neg_left.
-
-Theorem C09_refuted_Range_Pct_left : bad_pair false KRangeOp PLeft KPct = true /\ refutes w_Range_Pct_left.
-Proof. exact Refuted.C09_refuted_Range_Pct_left. Qed.
-Print Assumptions C09_refuted_Range_Pct_left.
-
-Theorem C09_refuted_Range_Range_left : bad_pair false KRangeOp PLeft KRangeOp = true /\ refutes w_Range_Range_left.
-Proof. exact Refuted.C09_refuted_Range_Range_left. Qed.
-Print Assumptions C09_refuted_Range_Range_left.
-
-Theorem C09_refuted_Range_Cmp_right : bad_pair false KRangeOp PRight KCmp = true /\ refutes w_Range_Cmp_right.
-Proof. exact Refuted.C09_refuted_Range_Cmp_right. Qed.
-Print Assumptions C09_refuted_Range_Cmp_right.
-
-Theorem C09_refuted_Range_Concat_right : bad_pair false KRangeOp PRight KConcat = true /\ refutes w_Range_Concat_right.
-Proof. exact Refuted.C09_refuted_Range_Concat_right. Qed.
-Print Assumptions C09_refuted_Range_Concat_right.
-
-Theorem C09_refuted_Range_Add_right : bad_pair false KRangeOp PRight (KSum SAdd) = true /\ refutes w_Range_Add_right.
-Proof. exact Refuted.C09_refuted_Range_Add_right. Qed.
-Print Assumptions C09_refuted_Range_Add_right.
-
-Theorem C09_refuted_Range_Sub_right : bad_pair false KRangeOp PRight (KSum SMinus) = true /\ refutes w_Range_Sub_right.
-Proof. exact Refuted.C09_refuted_Range_Sub_right. Qed.
-Print Assumptions C09_refuted_Range_Sub_right.
-
-Theorem C09_refuted_Range_Prod_right : bad_pair false KRangeOp PRight KProd = true /\ refutes w_Range_Prod_right.
-Proof. exact Refuted.C09_refuted_Range_Prod_right. Qed.
-Print Assumptions C09_refuted_Range_Prod_right.
-
-Theorem C09_refuted_Range_Pow_right : bad_pair false KRangeOp PRight KPow = true /\ refutes w_Range_Pow_right.
-Proof. exact Refuted.C09_refuted_Range_Pow_right. Qed.
-Print Assumptions C09_refuted_Range_Pow_right.
-
-Theorem C09_refuted_Range_Neg_right : bad_pair false KRangeOp PRight KNeg = true /\ refutes w_Range_Neg_right.
-Proof. exact Refuted.C09_refuted_Range_Neg_right. Qed.
-Print Assumptions C09_refuted_Range_Neg_right.
-
-Theorem C09_refuted_Range_Pct_right : bad_pair false KRangeOp PRight KPct = true /\ refutes w_Range_Pct_right.
-Proof. exact Refuted.C09_refuted_Range_Pct_right. Qed.
-Print Assumptions C09_refuted_Range_Pct_right.
-
-Theorem C09_refuted_Range_Range_right : bad_pair false KRangeOp PRight KRangeOp = true /\ refutes w_Range_Range_right.
-Proof. exact Refuted.C09_refuted_Range_Range_right. Qed.
-Print Assumptions C09_refuted_Range_Range_right.
-
-Theorem C09_refuted_Range_At_right : bad_pair false KRangeOp PRight KAt = true /\ refutes w_Range_At_right.
-Proof. exact Refuted.C09_refuted_Range_At_right. Qed.
-Print Assumptions C09_refuted_Range_At_right.
-
-Theorem C09_refuted_Range_Spill_right : bad_pair false KRangeOp PRight KSpill = true /\ refutes w_Range_Spill_right.
-Proof. exact Refuted.C09_refuted_Range_Spill_right. Qed.
-Print Assumptions C09_refuted_Range_Spill_right.
-
-Theorem C09_refuted_At_Cmp_only : bad_pair false KAt POnly KCmp = true /\ refutes w_At_Cmp_only.
-Proof. exact Refuted.C09_refuted_At_Cmp_only. Qed.
-Print Assumptions C09_refuted_At_Cmp_only.
-
-Theorem C09_refuted_At_Concat_only : bad_pair false KAt POnly KConcat = true /\ refutes w_At_Concat_only.
-Proof. exact Refuted.C09_refuted_At_Concat_only. Qed.
-Print Assumptions C09_refuted_At_Concat_only.
-
-Theorem C09_refuted_At_Add_only : bad_pair false KAt POnly (KSum SAdd) = true /\ refutes w_At_Add_only.
-Proof. exact Refuted.C09_refuted_At_Add_only. Qed.
-Print Assumptions C09_refuted_At_Add_only.
-
-Theorem C09_refuted_At_Sub_only : bad_pair false KAt POnly (KSum SMinus) = true /\ refutes w_At_Sub_only.
-Proof. exact Refuted.C09_refuted_At_Sub_only. Qed.
-Print Assumptions C09_refuted_At_Sub_only.
-
-Theorem C09_refuted_At_Prod_only : bad_pair false KAt POnly KProd = true /\ refutes w_At_Prod_only.
-Proof. exact Refuted.C09_refuted_At_Prod_only. Qed.
-Print Assumptions C09_refuted_At_Prod_only.
-
-Theorem C09_refuted_At_Pow_only : bad_pair false KAt POnly KPow = true /\ refutes w_At_Pow_only.
-Proof. exact Refuted.C09_refuted_At_Pow_only. Qed.
-Print Assumptions C09_refuted_At_Pow_only.
-
-Theorem C09_refuted_At_Neg_only : bad_pair false KAt POnly KNeg = true /\ refutes w_At_Neg_only.
-Proof. exact Refuted.C09_refuted_At_Neg_only. Qed.
-Print Assumptions C09_refuted_At_Neg_only.
-
-Theorem C09_refuted_At_Pct_only : bad_pair false KAt POnly KPct = true /\ refutes w_At_Pct_only.
-Proof. exact Refuted.C09_refuted_At_Pct_only. Qed.
-Print Assumptions C09_refuted_At_Pct_only.
-
-Theorem C09_refuted_At_Range_only : bad_pair false KAt POnly KRangeOp = true /\ refutes w_At_Range_only.
-Proof. exact Refuted.C09_refuted_At_Range_only. Qed.
-Print Assumptions C09_refuted_At_Range_only.
-
-Theorem C09_refuted_At_At_only : bad_pair false KAt POnly KAt = true /\ refutes w_At_At_only.
-Proof. exact Refuted.C09_refuted_At_At_only. Qed.
-Print Assumptions C09_refuted_At_At_only.
-
-Theorem C09_refuted_At_Spill_only : bad_pair false KAt POnly KSpill = true /\ refutes w_At_Spill_only.
-Proof. exact Refuted.C09_refuted_At_Spill_only. Qed.
-Print Assumptions C09_refuted_At_Spill_only.
-
-Theorem C09_refuted_Spill_Cmp_only : bad_pair false KSpill POnly KCmp = true /\ refutes w_Spill_Cmp_only.
-Proof. exact Refuted.C09_refuted_Spill_Cmp_only. Qed.
-Print Assumptions C09_refuted_Spill_Cmp_only.
-
-Theorem C09_refuted_Spill_Concat_only : bad_pair false KSpill POnly KConcat = true /\ refutes w_Spill_Concat_only.
-Proof. exact Refuted.C09_refuted_Spill_Concat_only. Qed.
-Print Assumptions C09_refuted_Spill_Concat_only.
-
-Theorem C09_refuted_Spill_Add_only : bad_pair false KSpill POnly (KSum SAdd) = true /\ refutes w_Spill_Add_only.
-Proof. exact Refuted.C09_refuted_Spill_Add_only. Qed.
-Print Assumptions C09_refuted_Spill_Add_only.
-
-Theorem C09_refuted_Spill_Sub_only : bad_pair false KSpill POnly (KSum SMinus) = true /\ refutes w_Spill_Sub_only.
-Proof. exact Refuted.C09_refuted_Spill_Sub_only. Qed.
-Print Assumptions C09_refuted_Spill_Sub_only.
-
-Theorem C09_refuted_Spill_Prod_only : bad_pair false KSpill POnly KProd = true /\ refutes w_Spill_Prod_only.
-Proof. exact Refuted.C09_refuted_Spill_Prod_only. Qed.
-Print Assumptions C09_refuted_Spill_Prod_only.
-
-Theorem C09_refuted_Spill_Pow_only : bad_pair false KSpill POnly KPow = true /\ refutes w_Spill_Pow_only.
-Proof. exact Refuted.C09_refuted_Spill_Pow_only. Qed.
-Print Assumptions C09_refuted_Spill_Pow_only.
-
-Theorem C09_refuted_Spill_Neg_only : bad_pair false KSpill POnly KNeg = true /\ refutes w_Spill_Neg_only.
-Proof. exact Refuted.C09_refuted_Spill_Neg_only. Qed.
-Print Assumptions C09_refuted_Spill_Neg_only.
-
-Theorem C09_refuted_Spill_Pct_only : bad_pair false KSpill POnly KPct = true /\ refutes w_Spill_Pct_only.
-Proof. exact Refuted.C09_refuted_Spill_Pct_only. Qed.
-Print Assumptions C09_refuted_Spill_Pct_only.
-
-Theorem C09_refuted_Spill_Range_only : bad_pair false KSpill POnly KRangeOp = true /\ refutes w_Spill_Range_only.
-Proof. exact Refuted.C09_refuted_Spill_Range_only. Qed.
-Print Assumptions C09_refuted_Spill_Range_only.
-
-Theorem C09_refuted_Spill_At_only : bad_pair false KSpill POnly KAt = true /\ refutes w_Spill_At_only.
-Proof. exact Refuted.C09_refuted_Spill_At_only. Qed.
-Print Assumptions C09_refuted_Spill_At_only.
-
-Theorem C09_refuted_Spill_Spill_only : bad_pair false KSpill POnly KSpill = true /\ refutes w_Spill_Spill_only.
-Proof. exact Refuted.C09_refuted_Spill_Spill_only. Qed.
-Print Assumptions C09_refuted_Spill_Spill_only.
+(* the witnesses of the 60 pairs repaired by commit 1fc9128 now come back *)
+Theorem C09_former_witnesses_roundtrip :
+  ltac:(let t := type of Refuted.former_witnesses_roundtrip in exact t).
+Proof. exact Refuted.former_witnesses_roundtrip. Qed.
+Print Assumptions C09_former_witnesses_roundtrip.
